@@ -1,5 +1,5 @@
 (* C08 - Flow control is honoured both ways and never deadlocks.  Proofs in Proofs/ChannelProofs.v. *)
-From AV Require Import Base.Prelude Model.Channel Proofs.ChannelProofs.
+From AV Require Import Base.Prelude Model.Channel Proofs.ChannelProofs Proofs.ChannelLiveProofs.
 
 (* The send loop: every emitted data packet has between 1 and min(window, max packet size) bytes
    and the packets of one flush together never exceed the window. *)
@@ -56,6 +56,33 @@ Theorem C08_no_deadlock : forall strict window pktsize ops,
   toks_data (r_out (rcv_ y)) = toks_data (written y) /\ s_buf (snd_ y) = [].
 Proof. exact quiescent_complete. Qed.
 Print Assumptions C08_no_deadlock.
+
+(* Eventually delivered: after ANY honest history (writes of any size, pauses, partial deliveries ...),
+   once the reader resumes reading, at most [measure] further deliveries - in the order "forward wire
+   first" - empty both wires, and then the receiving session has been handed exactly what the sending
+   application wrote.  [measure] = 2 * bytes still unsent + 2 per data packet and 1 per control packet
+   in flight + 1 per window adjust in flight + 2 for a pending EOF/close; every single delivery lowers
+   it by at least one (deliver_fwd_measure / deliver_back_measure), so any delivery order works. *)
+Theorem C08_eventually_delivered : forall strict window pktsize ops,
+  1 <= window -> 1 <= pktsize -> Forall honest ops ->
+  let y0 := run strict window pktsize ops in
+  let y1 := step strict y0 (OResume None) in
+  let y2 := pump strict (Z.to_nat (measure y1)) y1 in
+  fwd y2 = [] /\ back y2 = [] /\ toks_data (r_out (rcv_ y2)) = toks_data (written y0) /\ s_buf (snd_ y2) = [].
+Proof. exact eventually_delivered. Qed.
+Print Assumptions C08_eventually_delivered.
+
+(* every delivery on a non-empty wire makes progress, whichever wire is chosen *)
+Theorem C08_every_delivery_progresses : forall strict y,
+  Inv y -> reading y ->
+  (fwd y <> [] -> measure (step strict y ODeliverFwd) + 1 <= measure y) /\
+  (back y <> [] -> measure (step strict y ODeliverBack) + 1 <= measure y).
+Proof.
+  intros strict y I Hr. split; intros H.
+  - apply (deliver_fwd_measure strict y I Hr H).
+  - apply (deliver_back_measure strict y I Hr H).
+Qed.
+Print Assumptions C08_every_delivery_progresses.
 
 (* A peer-supplied maximum packet size of 0 makes the send loop spin for ever (finding C10-1), for
    every amount of fuel; the repaired open-time validation only lets sizes >= 1 through. *)
